@@ -97,6 +97,42 @@ def convOf (ty : Json) (parse : Option Int) (cv : Except String Num) : Except St
     | .ok c => pure (.ok (strValidate c))
   | _ => throw s!"bad type kind {k}"
 
+def tvalOfJson (j : Json) : Except String TVal :=
+  match j with
+  | .null => pure .none
+  | _ => do
+    let t ← j.getObjValAs? String "t"
+    match t with
+    | "str" => pure (.str (← j.getObjValAs? String "v").toList)
+    | "other" => pure (.other (← j.getObjValAs? String "v"))
+    | "int" => pure (.other "int")
+    | "bool" => pure (.other "bool")
+    | "flt" => pure (.other "float")
+    | "dec" => pure (.other "Decimal")
+    | _ =>
+      let a : List Nat ← (do
+        match ← j.getObjVal? "v" with
+        | .arr a => a.toList.mapM (fun x => fromJson? x)
+        | _ => throw "array expected")
+      match t, a with
+      | "date", [y, m, d] => pure (.date y m d)
+      | "time", [h, mi, s, us] => pure (.time h mi s us)
+      | "datetime", [y, m, d, h, mi, s, us] => pure (.datetime y m d h mi s us)
+      | _, _ => throw s!"bad temporal value {t}"
+
+def jN (n : Nat) : Json := .num (JsonNumber.fromNat n)
+def jsonOfTVal : TVal → Json
+  | .none => .null
+  | .date y m d => Json.mkObj [("t", "date"), ("v", .arr #[jN y, jN m, jN d])]
+  | .time h mi s us => Json.mkObj [("t", "time"), ("v", .arr #[jN h, jN mi, jN s, jN us])]
+  | .datetime y m d h mi s us => Json.mkObj [("t", "datetime"), ("v", .arr #[jN y, jN m, jN d, jN h, jN mi, jN s, jN us])]
+  | .str s => Json.mkObj [("t", "str"), ("cp", cpJson s)]
+  | .other s => Json.mkObj [("t", "other"), ("v", .str s)]
+
+def jsonOfTRes : TRes → Json
+  | .ok v => Json.mkObj [("ok", jsonOfTVal v)]
+  | .error e => Json.mkObj [("error", .str e)]
+
 def handle (j : Json) : Except String Json := do
   let op ← argStr j "op"
   match op with
@@ -112,6 +148,25 @@ def handle (j : Json) : Except String Json := do
     pure (jsonOfPyM (PonyVerif.Gen.intInitTail (← argPy j "size") (← argPy j "unsigned") (← argPy j "min") (← argPy j "max")))
   | "gen_int_validate" =>
     pure (jsonOfPyM (PonyVerif.Gen.intValidateTail (← argPy j "val") (← argPy j "min_val") (← argPy j "max_val")))
+  | "tinit" =>
+    match precisionInit (← argInt j "precision") with
+    | .ok _ => pure (Json.mkObj [("ok", .null)])
+    | .error e => pure (Json.mkObj [("init_error", .str e)])
+  | "tvalidate" =>
+    let k ← argStr j "kind"
+    let p ← argNat j "precision"
+    let v ← tvalOfJson (← j.getObjVal? "value")
+    -- result of the real str2date / str2time / str2datetime on the candidate when it is a str
+    let parsed : TRes ← (match j.getObjVal? "parse" with
+      | .ok c => (match c.getObjValAs? String "error" with
+        | .ok e => pure (.error e)
+        | .error _ => do pure (.ok (← tvalOfJson (← c.getObjVal? "ok"))))
+      | .error _ => pure (.error "ValueError"))
+    match k with
+    | "date" => pure (jsonOfTRes (dateValidate (fun _ => parsed) v))
+    | "time" => pure (jsonOfTRes (timeValidateC p (fun _ => parsed) v))
+    | "datetime" => pure (jsonOfTRes (datetimeValidateC p (fun _ => parsed) v))
+    | _ => throw s!"tvalidate: bad kind {k}"
   | "strip" =>
     let s ← argStr j "s"
     pure (Json.mkObj [("ok", cpJson (strip s.toList))])
